@@ -9,6 +9,8 @@ M.msg   message structures: conforming instance (required children only / all ch
 P.pure  purity / determinism / report consistency are asserted on every one of the above
 """
 import io
+import os
+import tempfile
 import random
 import re
 
@@ -67,6 +69,27 @@ def observe(el, trace=None):
     except Exception as e:
         ok = ok and bool(r1.errors) and type(e) is type(r1.errors[0]) and str(e) == str(r1.errors[0])
     ok = ok and el.to_er7() == before
+    # report file given as a PATH: complete when validate() returns, and - in the raising form - as soon as the exception is
+    # caught (it is read while the exception and its traceback are still alive)
+    fd, path = tempfile.mkstemp(prefix='vp_c04_', suffix='.txt')
+    os.close(fd)
+    try:
+        el.validate(report_file=path, return_errors=True)
+        with open(path) as f:
+            ok_path = f.read() == want_report
+        try:
+            el.validate(report_file=path)
+            with open(path) as f:
+                ok_path = ok_path and f.read() == want_report
+        except Exception as held:
+            with open(path) as f:
+                ok_path = ok_path and f.read() == want_report
+            del held
+    finally:
+        os.unlink(path)
+    if not ok_path and trace is not None:
+        trace.append('report file given as a path does not hold exactly the reported errors and warnings when validate() returns / raises')
+    ok = ok and ok_path
     # ... and it does not depend on what has been READ before: navigate (read-only) to every child the structure names
     try:
         for name in list(el.structure_by_name or {}):
@@ -209,6 +232,17 @@ def _has_groups(ref):
     return any(c[3] == 'GRP' for c in ref[1])
 
 
+def _witness_dupnames():
+    """recorded finding C04-duplicate-child-names: a structure that lists the same child twice under one parent (v2.2 ADT_A17:
+    PID PV1 PID PV1) - a conforming instance must validate"""
+    reset_defaults()
+    text = ('MSH|^~\\&|A|B|C|D|2020||ADT^A17|1|P|2.2\rEVN|A17|2020\r' + B.segment_text('2.2', 'PID', 'required') + '\r' +
+            B.segment_text('2.2', 'PV1', 'required') + '\r' + B.segment_text('2.2', 'PID', 'required') + '\r' + B.segment_text('2.2', 'PV1', 'required'))
+    m = parse_message(text, validation_level=2)
+    errs = [str(e) for e in m.validate(return_errors=True).errors]
+    return not [e for e in errs if e.startswith('Child limit exceeded')]
+
+
 def _ob_seg(r: int, kind: int, t: int) -> bool:
     """
     pre: 0 <= r < NSEG and 0 <= kind < NSK and 0 <= t < NT
@@ -242,7 +276,9 @@ def explain(call):
     a, kw = eval('(lambda *a, **k: (a, k))(%s)' % m.group(2))
     tr = []
     try:
-        if m.group(1) == '_ob_seg':
+        if m.group(1) == '_witness_dupnames':
+            tr.append('v2.2 ADT_A17 with two PID/PV1 pairs validates: %s' % _witness_dupnames())
+        elif m.group(1) == '_ob_seg':
             v = dict(zip(['r', 'kind', 't'], a)); v.update(kw)
             seg_check(SEG_ROWS[v['r']][0], SEG_ROWS[v['r']][1], v['kind'], v['t'], tr)
         else:
